@@ -269,11 +269,11 @@ func (w *Workload) GenDocCmd(r *model.Rand, big bool) Base {
 	if big {
 		o.MaxInsts = 120
 	}
-	if r.Chance(1, 40) {
-		// a hundred or two instances (enough for work to be split per CPU)
+	if r.Chance(1, 12) {
+		// a few hundred instances (enough for work to be split per CPU)
 		o.MaxInsts = 8
 		d0 := model.GenDoc(r, o)
-		want := 120 + r.Intn(120)
+		want := 120 + r.Intn(480) // thresholds such as 128, 256, 512 lie inside
 		if r.Chance(1, 5) {
 			// beyond a thousand instances (thresholds such as 1024)
 			want = 1030 + r.Intn(500)
